@@ -18,5 +18,5 @@ for f in sorted(glob.glob(os.path.join(os.path.dirname(__file__), "..", "seeded"
     how = m["detected_by"].replace("\n", " ")
     how = re.sub(r"; failing-input$", "", how)
     how = how[:200] + ("…" if len(how) > 200 else "")
-    fsx = m.get("first_sight") or first.get(m["id"], "?")
+    fsx = m.get("first_sight") or first.get(m["id"], "caught" if rnd == 6 else "?")
     print("| %s | %s | %s | %s |" % (m["id"], summ.replace("|", "/"), fsx, how.replace("|", "/")))
